@@ -6,7 +6,7 @@ from ..leandrv import Driver
 MODULE = 'Bluebell.Props.C13'
 THEOREMS = ['Bluebell.C13_unescape_escapeAll', 'Bluebell.C13_escape_tried_first', 'Bluebell.C13_merge_drops_backslash', 'Bluebell.C13_escaped_line_examples', 'Bluebell.C13_counterexample_trailing_space',
             'Bluebell.C13_escaped_line_is_its_text', 'Bluebell.line_of_escapes', 'Bluebell.inline_reads_escape', 'Bluebell.mayStart_sound',
-            'Bluebell.C13_block_rules_choose_line', 'Bluebell.C13_block_level_reads_escaped_line']
+            'Bluebell.C13_block_rules_choose_line', 'Bluebell.C13_block_level_reads_escaped_line', 'Bluebell.C13_escape_anywhere_in_plain_text']
 
 ALPH = (gen.ALL_KEYWORDS + gen.MARKERS + ['\\', '\\\\', '-', ' - ', ' ', 'a', 'Z', '1.', '(a)', 'é', 'א', '中', '\U0001F600', '{{', '}}', '**', '//', '__',
                                           '{{*', '{{FOOTNOTE 1}}', '{{IMG x y}}', '|', '{a b}', '.x', '*', 'ITEM', 'FROM', 'TC', 'TR',
